@@ -22,6 +22,20 @@ Definition ctrue : expr := Constant CTrue.
 Definition cfalse : expr := Constant CFalse.
 Definition cnone : expr := Constant CNone.
 Definition cint (z : Z) : expr := Constant (CInt z).
+(* utils.int_literal: a negative integer is a minus sign applied to a literal (what the parser reads) *)
+Definition nint (z : Z) : expr := if (z <? 0)%Z then UnaryOp USub (cint (- z)) else cint z.
+Definition minus1 : expr := UnaryOp USub (cint 1).
+(* the integer an index expression of the generated code denotes *)
+Definition int_of (e : expr) : option Z :=
+  match e with
+  | Constant (CInt z) => Some z
+  | UnaryOp USub (Constant (CInt z)) => Some (- z)%Z
+  | _ => None
+  end.
+Lemma int_of_cint z : int_of (cint z) = Some z.
+Proof. reflexivity. Qed.
+Lemma int_of_nint z : int_of (nint z) = Some z.
+Proof. unfold nint. destruct (z <? 0)%Z; cbn [int_of cint]; [rewrite Z.opp_involutive|]; reflexivity. Qed.
 Definition lambda0 (body : expr) : expr := Lambda [] [] None [] [] None [] body.
 
 Definition chain_runner : expr :=
@@ -158,7 +172,7 @@ Section Transf.
         let! r := get_assign n t v' in
         match r with
         | NamedExpr _ _ => ret r
-        | _ => let! ld := get_load_assigned n t in ret (Subscript (EList [r; ld]) (cint (-1)))
+        | _ => let! ld := get_load_assigned n t in ret (Subscript (EList [r; ld]) minus1)
         end
     | ListComp x gs =>
         let! ns := gen_names gs in let c := ns ++ bd in
@@ -350,11 +364,11 @@ Section Assign.
               else
                 let upper := (idx - len + 1)%Z in
                 let sub := call (Name "list")
-                             [Subscript tmp (Slice (Some (cint idx)) (if Z.eqb upper 0 then None else Some (cint upper)) None)] in
+                             [Subscript tmp (Slice (Some (cint idx)) (if Z.eqb upper 0 then None else Some (nint upper)) None)] in
                 let! a := f (index :: p) t' sub in
                 let! b := pattern_go r (S index) true in ret (a ++ b)
           | _ =>
-              let sub := Subscript tmp (cint (if starred then idx - len else idx)%Z) in
+              let sub := Subscript tmp (if starred then nint (idx - len)%Z else cint idx) in
               let! a := f (index :: p) t sub in
               let! b := pattern_go r (S index) starred in ret (a ++ b)
           end
@@ -624,7 +638,7 @@ Section Stmts.
                   ++ (if cfg_chain cfg then [wrap cfg b'] else b')
                   ++ [Name retv] in
                 let lam := Lambda (a_posonly args) (a_args args) (a_vararg args) (a_kwonly args) kwdefaults
-                                  (a_kwarg args) defaults (Subscript (EList body) (cint (-1))) in
+                                  (a_kwarg args) defaults (Subscript (EList body) minus1) in
                 let! decorated :=
                   (fix go (ds : list expr) (acc : expr) : res expr :=
                      match ds with
@@ -658,7 +672,7 @@ Section Stmts.
                 let! decorated :=
                   rmap (fun d => let! d' := tr n d in get_assign n name (call d' [load1])) (rev decs) in
                 ret ([create;
-                     NamedExpr loader (lambda0 (Subscript (EList class_body) (UnaryOp USub (cint 1))));
+                     NamedExpr loader (lambda0 (Subscript (EList class_body) minus1));
                      ListComp (call (Name "setattr") [load1; Name (ol "key" (path_str p)); Name (ol "value" (path_str p))])
                               [(ETuple [Name (ol "key" (path_str p)); Name (ol "value" (path_str p))],
                                 call (Attribute (call (Name loader) []) "items") [], [], false)]] ++ decorated)
